@@ -24,15 +24,15 @@ claimed = {
              "custom verb), the tail wildcard to the joined remainder, and the key set to the declared variables; thorough adds the substitute-back round trip at a smaller capacity.", design="5 (C04)"),
  "C14": dict(text="Product harness: the same container serves p and p+\"/\" for a symbolic p; the solver proves equal status, route, parameter values and Allow header for every p in the bound.", design="5 (C14)"),
  "C17": dict(text="Per symbolic URL: one dispatch per method of the table (plus a foreign one), one OPTIONS dispatch through OPTIONSFilter and a filter-less twin; the solver proves the Allow sets "
-             "(405 and OPTIONS) equal the set of methods not answered 404/405, outside the recorded finding classes.", design="5 (C17)"),
+             "(405 and OPTIONS) equal the set of methods not answered 404/405, outside the recorded finding classes; one more method is a symbolic string different from every declared one (HEAD, PATCH, anything): it must not be routable.", design="5 (C17)"),
  "C18": dict(text="Twin containers (CurlyRouter, RouterJSR311) on tables of the common fragment get the same symbolic request; the solver proves equal route, parameter values, status and Allow "
              "set outside the recorded input classes (empty segment / no leading slash, newline byte).", design="5 (C18)"),
  "C05": dict(text="Real Response.EntityWriter, sortedMimes, insertMime, accessorAt, writeJSON/writeXML header logic and Route.matchesAccept run on a flat symbolic Accept header (marshalling stubbed, "
              "map iteration order an explicit choice): the solver proves that an admitted request is never answered 406 by the writer, that Content-Type is a produced registered type, equals "
              "the reference choice (whitespace-insensitive parse, q descending, stable, */* = first producible) wherever the reference is definite, and that the decision taken twice with "
-             "independent map orders agrees; a sequence harness serves two requests with the same symbolic Accept header to routes with different Produces lists (also one method+path told apart by Consumes) and judges the second answer, and the same request repeated must get the same representation.", design="5 (C05)"),
+             "independent map orders agrees; a sequence harness serves two requests with the same symbolic Accept header to routes with different Produces lists (also one method+path told apart by Consumes) and judges the second answer (the earlier request carries the same header, or only its first or only its second range), and the same request repeated must get the same representation.", design="5 (C05)"),
  "C15": dict(text="Every sequence (bounded length) of the Response writing calls over a writer that starts failing at a symbolic call and accepts a symbolic prefix: the solver proves "
-             "StatusCode() = status received, ContentLength() = bytes accepted (before coding when a CompressingResponseWriter sits underneath) and that the failing call returns the writer's error; under a coding the chunks the underlying writer received are decoded and counted; entity values that cannot be marshalled (natively too) cover the error paths.",
+             "StatusCode() = status received, ContentLength() = bytes accepted (before coding when a CompressingResponseWriter sits underneath) and that the failing call returns the writer's error; under a coding the chunks the underlying writer received are decoded and counted; entity values that cannot be marshalled (natively too) cover the error paths; a sequence harness sends 2-3 requests through one of two containers and compares what a trailing container filter reads from StatusCode()/ContentLength() with what that request's own writer received.",
              design="5 (C15)"),
  "C07": dict(text="Every combination of entry point, container/route encoding switch, outcome kind and provider is executed with a symbolic Accept-Encoding header, payload chunks and pre-set "
              "Content-Encoding; compressors are typestate stubs emitting one token ENC(coding, payload): the solver proves that an encoded response is one complete stream of the coding "
@@ -63,8 +63,8 @@ claimed = {
              "disallowed Origin are served exactly like on a filter-less twin; a second harness chains two filters with different configurations.", design="5 (C08)"),
  "C09": dict(text="Symbolic method, requested method and requested header list against configured or computed allowed methods and symbolic allowed headers: the solver proves that a preflight "
              "never reaches a later filter or route, is granted exactly when method and every requested header are allowed, and that actual requests proceed with each header once; an optional "
-             "earlier preflight to the other URL must not change the answer.", design="5 (C09)"),
- "C16": dict(text="go-restful's part of the property, with the standard library codecs trusted: the entity is written by the real Response code and read back by the real Request.ReadEntity / entityReaderWriters.accessorAt / entityJSONAccess / entityXMLAccess code under every combination of entity kind, body coding, compressor provider, writing call, Content-Type spelling (verbatim, with a symbolic parameter suffix, absent or unregistered with a default request content type) and a history of up to two earlier requests (five kinds of broken body, a well-formed one) that share the pooled decompressors; value and suffix are symbolic. encoding/json, encoding/xml, compress/gzip and compress/zlib are typestate stubs: a serialised value is an opaque token that only the decoder of the same kind turns back into an equal value, a compressed stream a token that only the decompressor of the same coding - reset onto it - opens; json numbers decoded into an untyped field without UseNumber lose precision beyond 2^53. The solver proves: no error and an equal value (64-bit integer exactly, also in the untyped field) for well-formed requests, an error and never a panic for broken ones, a clean decompressor ledger, and no influence of earlier requests. Counterexamples are replayed natively with the real codecs. The equality of the codecs themselves over their whole value domain (unicode strings, floats, nested values) cannot be encoded within reach and is NOT claimed.",
+             "earlier preflight to the other URL must not change the answer; the requested headers may arrive on two header lines.", design="5 (C09)"),
+ "C16": dict(text="go-restful's part of the property, with the standard library codecs trusted: the entity is written by the real Response code and read back by the real Request.ReadEntity / entityReaderWriters.accessorAt / entityJSONAccess / entityXMLAccess code under every combination of entity kind, body coding, compressor provider, writing call, Content-Type spelling (verbatim, with a symbolic parameter suffix, absent or unregistered with a default request content type) and a history of up to two earlier requests (five kinds of broken body, a well-formed one, one of the other entity kind read under another default request content type) that share the pooled decompressors; a gzip body may consist of two members; value and suffix are symbolic. encoding/json, encoding/xml, compress/gzip and compress/zlib are typestate stubs: a serialised value is an opaque token that only the decoder of the same kind turns back into an equal value, a compressed stream a token that only the decompressor of the same coding - reset onto it - opens; json numbers decoded into an untyped field without UseNumber lose precision beyond 2^53. The solver proves: no error and an equal value (64-bit integer exactly, also in the untyped field) for well-formed requests, an error and never a panic for broken ones, a clean decompressor ledger, and no influence of earlier requests. Counterexamples are replayed natively with the real codecs. The equality of the codecs themselves over their whole value domain (unicode strings, floats, nested values) cannot be encoded within reach and is NOT claimed.",
              design="5 (C16)", note="Partial claim: the codecs (encoding/json, encoding/xml, compress/gzip, compress/zlib) are trusted typestate stubs symbolically and the real packages natively; the value domain is one struct type per codec with an int64, a string of <= 3 bytes in a-z and (JSON) an untyped integer field; at most two earlier requests. The statement's quantifier over every value of the codecs' common domain and over unicode strings is outside the claim."),
 }
 not_applicable = {
